@@ -126,12 +126,18 @@ func judgeC15(x scnResult, res *MonitorResult) {
 	cancelled := false
 	sha := map[string]string{}
 	stored, storedAtCrash, failedFirst := "", "", false
+	errAfterBroadcast, storedAtErrCrash := false, ""
 	for _, o := range x.w.obs {
 		switch o.Kind {
+		case "walleterr-after-broadcast":
+			errAfterBroadcast = true
 		case "crash":
 			if o.A["in"] == "broadcast.opening" {
 				crashedInBroadcast = true
 				storedAtCrash = stored // the state the store holds while the broadcast goes unrecorded
+			}
+			if errAfterBroadcast && openings == 1 && storedAtErrCrash == "" {
+				storedAtErrCrash = stored
 			}
 			if o.A["in"] == "pay" {
 				crashedInPay = true
@@ -141,6 +147,11 @@ func judgeC15(x scnResult, res *MonitorResult) {
 				openings++
 				if openings == 2 {
 					cause := "other"
+					if !crashedInBroadcast && storedAtErrCrash != "" {
+						// the wallet adapter broadcast the first one and then reported an error; the process died
+						// before the resulting cancel was stored
+						cause = "wallet-error-after-broadcast-then-crash/stored=" + strings.TrimPrefix(strings.TrimPrefix(storedAtErrCrash, "State_SwapInSender_"), "State_SwapOutReceiver_")
+					}
 					if crashedInBroadcast {
 						// the history is part of the signature: which state was stored when the process died with
 						// the broadcast unrecorded, and whether an earlier attempt had failed
@@ -329,6 +340,10 @@ func init() {
 						blocks = "blocks lbtc 10080"
 					}
 					all = append(all, scn{role: role, steps: cat(base[:len(base)-2], []string{"fault opening-after down", base[len(base)-2], blocks, "csv", "restart", "csv"})})
+					// ... and the process dies while it handles that error (the cancel not stored yet)
+					for k := 1; k <= 9; k++ {
+						all = append(all, scn{role: role, steps: cat(base[:len(base)-2], []string{"fault opening-after down", fmt.Sprintf("crash %d", k), base[len(base)-2], "restart", blocks, "csv", "restart", "csv"})})
+					}
 				}
 			}
 			all = append(all, sweepScenarios(rolesWanted)...)
